@@ -23,7 +23,7 @@ from sim.ref import graph as gref, sv
 from sim.seam import OutcomeScript, OwnedRNG
 
 ID = "C10"
-RUNS = {"quick": 1200, "thorough": 40000}
+RUNS = {"quick": 900, "thorough": 40000}
 BUDGET = {"quick": 80, "thorough": 1500}
 CHUNK = {"quick": 10, "thorough": 40}
 RUN_TIMEOUT_S = 600
